@@ -86,6 +86,14 @@ class Sess:
         else:
             ep = E.new_endpoint("server", "ACC", "INIT", self.j[side], hb=HB, name="A")
         ep.rx = self.rx[side][-1]
+
+        async def on_message(msg, ep=ep):
+            # an application that closes the session from inside its message handler ("market closed"): the message it was
+            # handed has been received, restart or not
+            if str(msg.get(11, "")).startswith("stop"):
+                from asyncfix.connection import ConnectionState as CS
+                await ep.disconnect(CS.DISCONNECTED_WCONN_TODAY, logout_message="closing")
+        ep.vf_hooks["on_message"] = on_message
         return ep
 
     def add_transport_kill_points(self, side, w):
@@ -123,13 +131,13 @@ class Sess:
                     n += 1
         return n < limit
 
-    async def send(self, side):
+    async def send(self, side, prefix=""):
         from asyncfix import FIXMessage
         from asyncfix.errors import FIXConnectionError
         from vf.sim.crash import Kill
         from vf.sim.net import settle
         self.cnt += 1
-        ident = f"{side.lower()}{self.cnt}"
+        ident = f"{prefix}{side.lower()}{self.cnt}"
         try:
             await self.w.ep[side].send_msg(FIXMessage("D", {11: ident, 55: "X"}))
             self.accepted[side].append(ident)
@@ -229,7 +237,9 @@ def gen_history(rnd):
     steps = []
     for _ in range(n):
         r = rnd.random()
-        if r < 0.34:
+        if r < 0.04:
+            steps.append(("send_stop", rnd.choice("IA")))     # the receiver's application closes the session inside on_message
+        elif r < 0.34:
             steps.append(("send", rnd.choice("IA")))
         elif r < 0.7:
             steps.append(("deliver", rnd.choice("IA"), rnd.randrange(1, 4)))
@@ -256,6 +266,13 @@ async def do_step(s, st):
     if k == "send":
         ident, r = await s.send(st[1])
         s.trace.append(f"send{st[1]}:{ident}:{r}")
+    elif k == "send_stop":
+        if quiescent(s):
+            ident, r = await s.send(st[1], prefix="stop")
+            await s.pump()
+            s.trace.append(f"send_stop{st[1]}:{ident}:{r}")
+            if not s.ctl.dead:
+                await recover_link(s)
     elif k == "deliver":
         for _ in range(st[2]):
             if s.ctl.dead or not await w.deliver(st[1]):
